@@ -47,6 +47,12 @@ type Check struct {
 	// Replay re-executes one recorded case (without the explorer) and calls c.Violate if it fails.
 	Replay      func(c *Ctx, raw json.RawMessage)
 	Assumptions []string
+	// ReplayID is the property name written into replay files (default ID); a check that is a second part of a
+	// property, run by another binary, uses its own name here so that the launcher can dispatch replays.
+	ReplayID string
+	// MergeInto: instead of overwriting evidence/<ID>.json, add this run's coverage to the existing file under
+	// coverage[MergeInto] and add its counts to the totals (used by the schedule part of C09).
+	MergeInto string
 }
 
 type Ctx struct {
@@ -354,7 +360,11 @@ func (c *Ctx) finish(ch *Check) int {
 		}
 		h := sha1.Sum([]byte(v.Key))
 		path := filepath.Join(Root, "replays", fmt.Sprintf("%s-%s.json", c.ID, hex.EncodeToString(h[:6])))
-		rf, _ := json.MarshalIndent(replayFile{Property: c.ID, Key: v.Key, Msg: v.Msg, Case: v.Case}, "", " ")
+		rid := ch.ReplayID
+		if rid == "" {
+			rid = c.ID
+		}
+		rf, _ := json.MarshalIndent(replayFile{Property: rid, Key: v.Key, Msg: v.Msg, Case: v.Case}, "", " ")
 		os.WriteFile(path, rf, 0o644)
 		fmt.Printf("VIOLATION property=%s replay=%s\n", c.ID, path)
 		fmt.Printf("  key=%s\n  %s\n", v.Key, v.Msg)
@@ -425,6 +435,29 @@ func (c *Ctx) writeEvidence(ch *Check, known int) {
 		"assumptions": ch.Assumptions,
 		"wall_s":      time.Since(c.Start).Seconds(),
 		"violations":  len(c.violations) - known,
+	}
+	if ch.MergeInto != "" {
+		if prev, err := os.ReadFile(filepath.Join(Root, "evidence", c.ID+".json")); err == nil {
+			var old map[string]interface{}
+			if json.Unmarshal(prev, &old) == nil {
+				if oc, ok := old["coverage"].(map[string]interface{}); ok {
+					oc[ch.MergeInto] = cov
+					for _, k := range []string{"evaluations", "states", "transitions", "traces_validated_against_impl", "distinct_nontrivial"} {
+						a, _ := oc[k].(float64)
+						b, _ := cov[k].(int64)
+						oc[k] = int64(a) + b
+					}
+					if ex, _ := cov["exhaustive"].(bool); !ex {
+						oc["exhaustive"] = false
+					}
+					ow, _ := old["wall_s"].(float64)
+					old["wall_s"] = ow + time.Since(c.Start).Seconds()
+					ov, _ := old["violations"].(float64)
+					old["violations"] = int(ov) + len(c.violations) - known
+					out = old
+				}
+			}
+		}
 	}
 	b, _ := json.MarshalIndent(out, "", " ")
 	os.MkdirAll(filepath.Join(Root, "evidence"), 0o755)
